@@ -4,6 +4,7 @@ package directory
 
 import (
 	"errors"
+	"github.com/lugu/qiloop/bus/util"
 
 	"github.com/lugu/qiloop/bus"
 	"github.com/lugu/qiloop/bus/net"
@@ -552,4 +553,38 @@ func C15SlowHandshake() {
 	}
 	sym.Assert(added <= 1, "slow/name-announced-twice")
 	sym.Reach("slow-handshake-done")
+}
+
+// C15RemoteReservationVsLocal: a REMOTE client reserves a name (register, not ready yet) with a record that
+// may look exactly like what the hosting server itself would register (same machine, same process, the
+// server's own addresses: a client living in the directory's process) or differ from it; the hosting server
+// then tries to create a service of that name locally. The name is reserved: the local creation is refused,
+// the identifier is not handed out a second time and the remote owner can still complete its handshake.
+func C15RemoteReservationVsLocal() {
+	d := serviceDirectoryImpl()
+	ns := d.Namespace("tcp://local")
+	srv, err := bus.NewServer(&zzIdleListener{closed: make(chan struct{})}, bus.Yes{}, ns, ServiceDirectoryObject(d))
+	sym.Assert(err == nil, "reservation/server-started")
+	if err != nil {
+		return
+	}
+	d.signal = &zzSignals{}
+	remote := ServiceInfo{Name: "demo", MachineId: util.MachineID(), ProcessId: util.ProcessID(), Endpoints: []string{"tcp://local"}}
+	switch sym.Choose("remote-record", 3) {
+	case 1:
+		remote.ProcessId = util.ProcessID() + 1
+	case 2:
+		remote.Endpoints = []string{"tcp://elsewhere:1"}
+	}
+	id, err := d.RegisterService(remote)
+	sym.Assert(err == nil, "reservation/remote-register-ok")
+	local, err := srv.NewService("demo", zzNopActor{})
+	sym.Assert(err != nil, "reservation/local-creation-accepted-while-the-name-is-reserved")
+	if err == nil {
+		sym.Assert(local.ServiceID() != id, "reservation/identifier-handed-out-twice")
+	}
+	sym.Assert(d.ServiceReady(id) == nil, "reservation/remote-owner-cannot-complete")
+	info, err := d.Service("demo")
+	sym.Assert(err == nil && info.ServiceId == id, "reservation/name-not-held-by-the-remote-owner")
+	sym.Reach("reservation-done")
 }
